@@ -150,9 +150,9 @@ class EEMSWrite(SameArrayShapeMixin, Command):
 
                         break
 
-            mask = numpy.copy(arrays[0].mask)
+            mask = numpy.ma.getmaskarray(arrays[0]).copy()
             for arr in arrays[1:]:
-                mask |= arr.mask
+                mask |= numpy.ma.getmaskarray(arr)
 
             for command in commands:
                 variable = dataset.createVariable(
